@@ -33,24 +33,6 @@ def _common(ts, g, T, time_default=True):
     return ok
 
 
-def check_ic_endogenous_reduced(g: List[float], ic: float, T: int) -> bool:
-    """
-    pre: 0 <= T <= 2
-    pre: len(g) <= 3
-    pre: all(-100 <= v <= 100 for v in g) and -100 <= ic <= 100
-    post: _
-    """
-    try:
-        es = _solve(B_ENDO, g, ic, T, True)
-    except ValueError:
-        return len(g) < T + 1
-    if len(g) < T + 1:
-        return False
-    ts = es.TimeSeries
-    return (_common(ts, g, T) and ts['x'][0] == ic and all(ts['L'][k] == ts['x'][k - 1] for k in range(1, T + 1))
-            )
-
-
 def check_ic_lagged_reduced(g: List[float], ic: float, T: int) -> bool:
     """
     pre: 0 <= T <= 2
@@ -91,9 +73,9 @@ def check_scalar_broadcast_reduced(s: float, T: int) -> bool:
     pre: -100 <= s <= 100
     post: _
     """
-    es = _solve(B_ENDO, s, 1.5, T, True)
+    es = _solve(B_DECO, s, 1.5, T, True)
     ts = es.TimeSeries
-    return all(len(ts[v]) == T + 1 for v in ts) and ts['G'] == [s] * (T + 1) and ts['x'][0] == 1.5
+    return all(len(ts[v]) == T + 1 for v in ts) and ts['G'] == [s] * (T + 1) and ts['d'][0] == 1.5
 
 
 def check_tuple_exogenous(a: float, b: float, c: float, T: int) -> bool:
@@ -104,13 +86,13 @@ def check_tuple_exogenous(a: float, b: float, c: float, T: int) -> bool:
     """
     g = (a, b, c)
     try:
-        es = _solve(B_ENDO, g, 0.5, T, True)
+        es = _solve(B_DECO, g, 0.5, T, True)
     except ValueError:
         return T + 1 > 3
     if T + 1 > 3:
         return False
     ts = es.TimeSeries
-    return _common(ts, g, T) and ts['x'][0] == 0.5
+    return _common(ts, g, T) and ts['d'][0] == 0.5
 
 
 def check_user_time_reduced(g: List[float], T: int) -> bool:
@@ -174,7 +156,7 @@ def reach_solve(g: List[float], ic: float, T: int) -> bool:
     post: not (_ and T == 2 and len(g) == 3)
     """
     try:
-        _solve(B_ENDO, g, ic, T, True)
+        _solve(B_DECO, g, ic, T, True)
     except ValueError:
         return False
     return True
